@@ -69,6 +69,8 @@ struct plain_kind
             T v = p.point()[0] * p.point()[0] + T(0.25) * p.point()[1];
             pr.add(0, p.point()[0], v);
             pr.add(1, p.point()[0], p.point()[1], v);
+            // an observable may be filled more than once per call: a bin can then hold more entries than the iteration had calls
+            for (int rep = 0; rep != 3; ++rep) pr.add(0, T(0.5), v * T(0.5));
             return v;
         };
         if (x.dists)
@@ -89,7 +91,9 @@ struct vegas_kind
         if (variant == 2) return hep::make_vegas_chkpt<T, E>(16, T(), e);   // no damping at all
         hep::vegas_pdf<T> pdf(2, 6);
         static double const g[7] = {0.0, 0.05, 0.2, 0.3, 0.55, 0.9, 1.0};
-        for (std::size_t d = 0; d != 2; ++d) for (std::size_t b = 1; b != 6; ++b) pdf.set_bin_left(d, b, T(g[b]) + (d ? T(0.01) : T()));
+        // (a grid may be filled in any order: the second dimension from the right to the left)
+        for (std::size_t b = 1; b != 6; ++b) pdf.set_bin_left(0, b, T(g[b]));
+        for (std::size_t b = 5; b != 0; --b) pdf.set_bin_left(1, b, T(g[b]) + T(0.01));
         return hep::make_vegas_chkpt<T, E>(pdf, T(0.8), e);
     }
     template <typename E> static typename types<E>::chk load(std::istream& in) { return hep::make_vegas_chkpt<T, E>(in); }
@@ -142,6 +146,7 @@ struct vegas_kind
             T v = T(1) / (T(1) + d * d) + p.point()[1];
             pr.add(0, p.point()[0], v);
             pr.add(1, p.point()[0], p.point()[1], v);
+            for (int rep = 0; rep != 3; ++rep) pr.add(0, T(0.5), v * T(0.5));
             return v;
         };
         std::vector<std::string> const& nm = x.names;
@@ -163,6 +168,8 @@ struct mc_kind
         // user weights whose normalisation is clamped by the minimum weight (normalising twice would change them)
         if (variant == 2) return hep::make_multi_channel_chkpt<T, E>(std::vector<T>{T(18), T(0), T(1), T(1)}, T(0.1), T(0.25), e);
         // user weights: unnormalised, with a disabled channel
+        // a minimum weight that all channels together cannot have (4 x 0.3 > 1): every weight is raised to it, then they are normalised
+        if (variant == 3) return hep::make_multi_channel_chkpt<T, E>(std::vector<T>{T(3), T(1), T(1), T(1)}, T(0.3), T(0.5), e);
         return hep::make_multi_channel_chkpt<T, E>(std::vector<T>{T(2), T(0), T(1), T(1)}, T(0.05), T(0.5), e);
     }
     template <typename E> static typename types<E>::chk load(std::istream& in) { return hep::make_multi_channel_chkpt<T, E>(in); }
@@ -207,6 +214,7 @@ struct mc_kind
             T v = y * (T(1) - y) * T(6);
             pr.add(0, y, v);
             pr.add(1, y, p.point()[0], v);
+            for (int rep = 0; rep != 3; ++rep) pr.add(0, T(0.5), v * T(0.5));
             return v;
         };
         std::vector<std::string> const& nm = x.names;
@@ -476,7 +484,7 @@ int main(int argc, char** argv)
     run_cfg<vegas_kind>(g, "ranlux48_base", std::ranlux48_base(s), 2, 0, T(), thorough);
     run_cfg<mc_kind>(g, "mt19937", std::mt19937(s), 0, 0, T(), thorough);
     run_cfg<mc_kind>(g, "knuth_b", std::knuth_b(s), 1, 1, T(), thorough);
-    run_cfg<mc_kind>(g, "counter64", counter_engine<64>(s), 1, 0, T(), thorough);
+    run_cfg<mc_kind>(g, "counter64", counter_engine<64>(s), 3, 0, T(), thorough);
     run_cfg<mc_kind>(g, "ranlux24_base", std::ranlux24_base(s), 2, 0, T(), thorough);
     // an iteration whose sampled values are all zero (third iteration): the state must stay as it was
     run_cfg<vegas_kind>(g, "mt19937", std::mt19937(s), 1, 0, T(), thorough, 2);
